@@ -94,6 +94,14 @@ func (s *JavaAPIListener) EnterAnnotation(ctx *parser.AnnotationContext) {
 		buildBaseApiUrlString(annotationName, ctx)
 	}
 
+	// an annotation of the type declaration itself gives the base path only; it does not
+	// start an API entry (the entry would be completed by the first method of the class)
+	if modifier, ok := ctx.GetParent().(*parser.ClassOrInterfaceModifierContext); ok {
+		if _, ofType := modifier.GetParent().(*parser.TypeDeclarationContext); ofType {
+			return
+		}
+	}
+
 	notAPI := annotationName == "RequestMapping" || annotationName == "GetMapping" || annotationName == "PutMapping" || annotationName == "PostMapping" || annotationName == "DeleteMapping"
 	if !notAPI {
 		return
